@@ -1,5 +1,6 @@
 import OsmVerif.Model.PbfFraming
 import OsmVerif.Props.C01
+import OsmVerif.Lemmas.Pbf
 /-!
 # C06 — truncated or damaged input ends in an error after a correct prefix
 
@@ -12,7 +13,7 @@ import OsmVerif.Props.C01
   isolated child process.
 -/
 namespace OsmVerif.Props.C06
-open OsmVerif.Gen.Pbf OsmVerif.Model.PbfFraming OsmVerif.Model.PbfScan
+open OsmVerif.Gen.Pbf OsmVerif.Model.PbfFraming OsmVerif.Model.PbfScan OsmVerif.Model.Pbf
 
 /-- only the read of the 4-byte length prefix may meet the end of input; the blob header and the blob reader
     turn it into an error -/
@@ -109,6 +110,88 @@ theorem damage_checks_present :
     decodeBody.contains "objects, err = nil, fmt.Errorf(\"osmpbf: invalid primitive block: %v\", re)" = true ∧
     (OsmVerif.Props.C01.T.postChecks.filter (·.isError)).length = 3 := by
   decide +kernel
+
+/-! ## what the format lets a reader detect (the specification side of the damage classes) -/
+
+/-- a string reference beyond the table is not a string -/
+theorem str_out_of_range (st : List String) (i : Int) (h : (st.length : Int) ≤ i) : str st i = none := by
+  unfold str
+  have : ¬ i < 0 := by omega
+  simp only [this, if_false]
+  apply List.getElem?_eq_none
+  omega
+
+theorem mapM_none_of_mem {α β} (f : α → Option β) (l : List α) (x : α) (hx : x ∈ l) (h : f x = none) : l.mapM f = none := by
+  induction l with
+  | nil => cases hx
+  | cons a rest ih =>
+    rw [List.mapM_cons]
+    rcases List.mem_cons.mp hx with e | e
+    · subst e; simp [h]
+    · cases f a with
+      | none => rfl
+      | some b => simp [ih e]
+
+/-- **the format lets a reader detect it — dense columns**: a dense group whose lat or lon column does not have one
+    entry per id has no meaning -/
+theorem dense_column_mismatch (gran dg la lo : Int) (st : List String) (d : Dense)
+    (h : d.lat.length ≠ d.ids.length ∨ d.lon.length ≠ d.ids.length) : decodeDense gran dg la lo st d = none := by
+  unfold decodeDense
+  simp [h]
+
+/-- … an info column with fewer entries than ids -/
+theorem dense_short_version_column (gran dg la lo : Int) (st : List String) (d : Dense) (col : List Int)
+    (hi : d.hasInfo = true) (hv : d.ver = some col) (hl : col.length < d.ids.length) : decodeDense gran dg la lo st d = none := by
+  unfold decodeDense
+  simp only [hi, hv, if_true]
+  split
+  · rfl
+  · split
+    · rfl
+    · apply mapM_none_of_mem _ _ col.length (by simp; exact hl)
+      have : getCol (some col) col.length = none := by simp [getCol]
+      simp [this]
+
+/-- … a user string reference beyond the string table -/
+theorem way_user_out_of_range (gran dg la lo : Int) (st : List String) (w : WayMsg) (i : Info) (s : Int)
+    (hi : w.info = some i) (hs : i.sid = some s) (h : (st.length : Int) ≤ s) : decodeWay gran dg la lo st w = none := by
+  unfold decodeWay
+  have : decodeInfo dg st w.info = none := by simp [decodeInfo, hi, hs, str_out_of_range st s h]
+  simp [this]
+
+/-- … a tag key reference beyond the string table -/
+theorem tags_key_out_of_range (st : List String) (ks vs : List Int) (j : Nat) (hj : j < ks.length) (hl : ks.length = vs.length)
+    (h : (st.length : Int) ≤ ks[j]) : decodeTags st (some ks) (some vs) = none := by
+  simp only [decodeTags, hl, ne_eq, not_true_eq_false, if_false]
+  have hjv : j < vs.length := by omega
+  apply mapM_none_of_mem _ _ (ks[j], vs[j])
+  · rw [List.mem_iff_getElem]
+    exact ⟨j, by simp only [List.length_zip]; omega, by simp⟩
+  · simp [str_out_of_range st ks[j] h]
+
+/-- … relation member columns of different lengths -/
+theorem rel_column_mismatch (dg : Int) (st : List String) (r : RelMsg)
+    (h : (r.roles.getD []).length ≠ (r.memids.getD []).length ∨ (r.types.getD []).length ≠ (r.memids.getD []).length) :
+    decodeRel dg st r = none := by
+  unfold decodeRel
+  have e : (undelta (r.memids.getD [])).length = (r.memids.getD []).length := by
+    unfold undelta; rw [undelta_eq_sums]
+    generalize r.memids.getD [] = l
+    have : ∀ a, (sumsFrom a l).length = l.length := by
+      intro a; induction l generalizing a with
+      | nil => rfl
+      | cons x t ih => simp [sumsFrom, ih]
+    exact this 0
+  simp [e, h]
+
+/-- a block with a malformed group has no meaning, and a file with such a block has none past it (the scan
+    delivers the blocks before it, `Oracle.decodePrefix`) -/
+theorem block_with_bad_group (b : Block) (g : Group) (hg : g ∈ b.groups)
+    (h : decodeGroup (b.gran.getD 100) (b.dateGran.getD 1000) (b.latOff.getD 0) (b.lonOff.getD 0) b.strings g = none) :
+    decodeBlock b = none := by
+  unfold decodeBlock
+  rw [mapM_none_of_mem _ _ g hg h]
+  rfl
 
 /-! ## non-vacuity -/
 example : scanCut specConv 40 [⟨10, 20, [1, 2]⟩, ⟨5, 8, [3]⟩] = ([1, 2], false) := by decide
